@@ -1,14 +1,15 @@
-(* NEEDS: CalTab/CalTabModel.vo CalTab/TableSpec.vo *)
+(* NEEDS: CalTab/CalTabModel.vo CalTab/TableSpec.vo CalTab/CalTabVectorModel.vo Interp/RfiModel.vo *)
 (* Extraction of the calibration-table / parameter-handle model (property C16).  Only
    ExtrOcamlBasic's directives; nat, positive, Z stay the extracted inductive types. *)
 Require Extraction.
 Require Import ExtrOcamlBasic.
 Require Import List ZArith.
-Require Import LV.CalTab.CalTabModel LV.CalTab.TableSpec.
+Require Import QArith Qcanon.
+Require Import LV.Base.QcI LV.CalTab.CalTabModel LV.CalTab.TableSpec LV.CalTab.CalTabVectorModel.
 Extraction Language OCaml.
 Set Extraction KeepSingleton.
 Extraction "models_caltab.ml"
-  step step_asis st_initial inv_b get_value cal_end slot
+  step step_asis st_initial inv_b get_value get_value_q qre qim this Qnum Qden cal_end slot
   st_pt st_cals st_news st_gprop st_freed pt_slots pt_count pt_first_free
   p_kind p_deleted p_hold other_of
   c_name c_type c_rows c_cols c_nf c_fmin c_fmax c_prop
